@@ -277,6 +277,10 @@ package car
 //@   ensures v1_whole_source [C07]: r.Version != 2 ==> err == nil
 
 //@ func (*Reader).Inspect
+//@   check success_only_after_a_clean_end [C02,C13]: err == nil ==> slerr == io.EOF || (slerr == nil && sectionLength == 0 && r.opts.ZeroLengthSectionAsEOF)
+//@   check too_large_only_above_the_limit [C09]: err == util.ErrSectionTooLarge && executed("varint.ReadUvarint#0") && slerr == nil && !executed("cid.CidFromReader#0") && !executed("Reader.IndexReader#0") ==> sectionLength > r.opts.MaxAllowedSectionSize
+//@   loop[1] step a_root_is_counted_at_most_once_per_section [C13]: rootsPresentCount == athead(1, rootsPresentCount) || rootsPresentCount == wrap_s64(athead(1, rootsPresentCount) + 1)
+//@   loop[1] step only_a_matching_root_is_counted [C13]: !(c == r__2) ==> rootsPresentCount == athead(1, rootsPresentCount)
 //@   let idxr, irerr := call[Reader.IndexReader#0]
 //@   let icodec, icerr := call[index.ReadCodec#0]
 //@   check clean_end_is_success [C02,C13]: executed("varint.ReadUvarint#0") && (slerr == io.EOF || (slerr == nil && sectionLength == 0 && r.opts.ZeroLengthSectionAsEOF)) ==> err == nil || err == irerr || err == icerr
@@ -338,6 +342,7 @@ package car
 //@   ensures never_impossible [C15]: tc.opts.DataPadding < 4611686018427387904 && e0 != ErrOffsetImpossible && e1 != ErrOffsetImpossible && e2 != ErrOffsetImpossible ==> err != ErrOffsetImpossible
 
 //@ func (*traversalCar).WriteV1
+//@   modifies wn(w), tc.size
 //@   let widx, werr := call[IndexTracker.Index#0]
 //@   ensures first_pass_learns_the_size [C15]: whe == nil && hse == nil && terr == nil && old(tc.size) == 0 ==> (err != ErrSizeMismatch || err == werr) && tc.size == sz
 //@   ensures index_iff_requested [C15]: err == nil ==> (tc.opts.IndexCodec == 3145728 ==> result1 == nil) && (tc.opts.IndexCodec != 3145728 ==> ref(result1) == ref(widx) && werr == nil)
